@@ -298,7 +298,9 @@ Definition ss_sub_ss (eps : Q) (w : ssvec) (s : ssvec) : ssvec :=
   if ss_setup w then ss_sub_sv eps (ss_entries w) s else ss_sub_dv eps (ss_val w) s.
 
 (* SSVectorBase::multAdd(x, SVectorBase) (basevectors.h): set-up case keeps the index list current, results with
-   |value| <= eps are removed; loop from the last non-zero of vec to the first *)
+   |value| <= eps are removed; loop from the last non-zero of vec to the first.  When a result was marked the
+   adjust pass (basevectors.h:426-443) walks the index list, keeps the entries with |value| > eps and sets the
+   value of every other indexed entry to an exact 0. *)
 Definition ss_multadd_step (eps : Q) (x : Q) (e : nat * Q) (st : dvec * list nat * list nat) :=
   let '(d, idx, marked) := st in
   let j := fst e in
@@ -316,7 +318,8 @@ Definition ss_multadd_sv (eps : Q) (x : Q) (v : svec) (s : ssvec) : ssvec :=
     let '(d, idx, marked) := fold_right (ss_multadd_step eps x) (ss_val s, ss_idx s, []) v in
     match marked with
     | [] => mkSS d idx true
-    | _ => mkSS d (filter (fun k => negb (qle_bool (qabs (dv_get d k)) eps)) idx) true
+    | _ => mkSS (fold_left (fun d' k => if qle_bool (qabs (dv_get d' k)) eps then dv_set d' k 0 else d') idx d)
+                (filter (fun k => negb (qle_bool (qabs (dv_get d k)) eps)) idx) true
     end
   else mkSS (dv_multadd_sv x v (ss_val s)) (ss_idx s) false.
 
